@@ -1,18 +1,23 @@
 /-
-  The straight-line part of the scalar fragment: definitions, single and simultaneous assignments, print, panic -
-  the statements whose Batch lines contain no label, jump or block.  (Fragment of the theorem in Props/C05Sem.)
+  The straight-line part of the scalar fragment: definitions and assignments of one variable, `print`, and a
+  `panic` as the last statement - the statements whose Batch lines contain no label, jump or block.
+  (Fragment of the theorem in Props/C05Sem.  Which EXPRESSIONS are covered is not part of this predicate: the source
+  semantics `Sem/Src32` gives no result for an expression outside the scalar fragment, and the theorem speaks about the
+  runs that have a result.)
 -/
 import TshVerif.Sem.Src32
 namespace Tsh.C05S
 open Tsh Tsh.Tr Tsh.Sem
 
 def straightStmt : Stmt → Bool
-  | .varDef vars vals => Src.fragStmt (.varDef vars vals)
-  | .assign vars vals => Src.fragStmt (.assign vars vals)
-  | .print es => es.all Src.fragExpr
-  | .panic e => Src.fragExpr e
+  | .varDef [x] [_] => goodName x.name
+  | .assign [x] [_] => goodName x.name
+  | .print _ => true
   | _ => false
 
-def straight (p : List Stmt) : Bool := p.all straightStmt
+def straight : List Stmt → Bool
+  | [] => true
+  | [.panic _] => true
+  | s :: rest => straightStmt s && straight rest
 
 end Tsh.C05S
